@@ -105,6 +105,12 @@ def shard(ctx):
     strat = st.tuples(st.one_of(progs.programs(profile='syntax'), progs.programs(profile='shape')), api.option_sets())
     hyp_run(ctx, 'gen', strat, prop_gen, ctx.n(6000, 250000))
 
+    # (a2) modules full of literals hostile to the quoting code, and literal arithmetic in many contexts
+    from ..gen import foldexprs, hostile
+    other = st.one_of(hostile.hostile_modules(pep701=True).map(lambda s: progs.Program(s, (3, 12), ['hostile'])),
+                      foldexprs.fold_modules().map(lambda t: progs.Program(t[0], (3, 12), ['arith'])))
+    hyp_run(ctx, 'gen2', st.tuples(other, api.option_sets()), prop_gen, ctx.n(3000, 100000))
+
     # (b) corpus files (whole) x 3 / 8 option sets
     files = corpus.files(max_size=40000)
     per = ctx.n(150, len(files))
